@@ -10,6 +10,7 @@ import Mutiny.Model.Multi
 import Mutiny.Model.MmapLog
 import Mutiny.Model.Exec
 import Mutiny.Model.ZeroCopy
+import Mutiny.Model.CancelAllLock
 /-! Uniform interface of the executable models for the replay driver. -/
 namespace Driver
 
@@ -523,6 +524,95 @@ def zeroCopyMachine : Machine ZeroCopy.St where
   describe s t := reprStr (s.thr t) ++ s!" free: {reprStr (s.free.thr t)} h={s.free.head} t={s.free.tail} e={s.free.enqTail} d={s.free.deqHead}; q: {reprStr (s.q.thr t)} h={s.q.head} t={s.q.tail} e={s.q.enqTail} d={s.q.deqHead}"
   cmpVal tag := tag != "am.len" && tag != "am.len.head" && tag != "am.p.fetch" && tag != "am.c.fetch" && tag != "am.c.chkhead"
 
+/-! ### `cancel_all_streams()` under `streams_lock` (model CancelAllLock = M6/M7 bookkeeping + the walker) -/
+structure CancelD where
+  s : Mutiny.CancelAllLock.St
+  /-- the logical thread running `cancel_all_streams()` -/
+  walker : Option Nat
+  /-- which stream id a polling thread is polling -/
+  pollId : List (Nat × Nat)
+  /-- what the keep-running flag of its stream read when the polling thread passed `sm.flag` (the wake protocol is model M8's: its
+      hooks are absorbed here, only the flag value decides between `pending` and `end`) -/
+  flagSeen : List (Nat × Bool)
+
+def wakeProtocolTag (tag : String) : Bool :=
+  tag == "sm.flag" || tag == "sm.reg.cmp" || tag == "sm.reg.lock" || tag == "sm.reg.store" || tag == "sm.reg.selfwake" ||
+  tag == "sm.wake" || tag == "sm.wake.lock" || tag == "sm.wake.retry"
+
+/-- At this scenario's granularity the wake-up calls inside the fan-out loop are yield points, so other threads run between the publication
+    into listener `i`'s queue and the read of entry `i + 1`.  The code reads the entry when it ARRIVES at its `mc.fan.read` hook, i.e. right after
+    the access of the last wake-protocol step it performed; model M7 reads it in the publication step (the same instant at the granularity of
+    its own scenarios).  The glue therefore re-reads the register from the model's own list after every absorbed step of that thread. -/
+def rereadArc (m : Mutiny.Multi.St) (t : Nat) : Mutiny.Multi.Loc :=
+  match m.thr t with
+  | .fArc ev i _ => .fArc ev i (m.used.getD i m.MAX)
+  | l => l
+
+open Mutiny in
+def cancelTag (d : CancelD) (t : Nat) : Option (String × Nat) :=
+  if d.walker == some t then
+    match d.s.w with
+    | .lock => some ("sm.cancelall.lock", 0)
+    | .spin => some ("sync.spin", 0)
+    | .read _ => some ("sm.cancelall.read", 0)
+    | .cancel _ id => some ("sm.cancel", id)
+    | .unlock => some ("sm.cancelall.unlock", 0)
+    | _ => none
+  else match Multi.tagOf d.s.m.MAX (d.s.m.thr t) with
+    | some ("mc.fan.read", v) => if d.s.m.flavor == .arc && v == d.s.m.MAX then some ("mc.fan.read", 4294967295) else some ("mc.fan.read", v)
+    | x => x
+
+open Mutiny in
+def cancelAllMachine : Machine CancelD where
+  call d t op args :=
+    let m := d.s.m
+    let idle := m.thr t == .idle
+    let nat (x : String) := x.toNat!
+    let mul (a : Multi.Act) : Option CancelD := some { d with s := CancelAllLock.apply d.s (.multi a) }
+    match op, args with
+    | "cancelall", [] => if d.s.w == .idle then some { d with s := CancelAllLock.apply d.s .cancelAll, walker := some t } else none
+    | "create", []   => if idle then mul (.create t) else none
+    | "drop", [id]   => if idle && m.live.contains (nat id) then mul (.drop t (nat id)) else none
+    | "send", [ev]   => if idle then mul (.send t (nat ev)) else none
+    | "poll", [id]   => if idle then
+        some { d with s := CancelAllLock.apply d.s (.multi (.poll t (nat id))), pollId := (t, nat id) :: d.pollId.filter (·.1 != t),
+                      flagSeen := d.flagSeen.filter (·.1 != t) } else none
+    | _, _ => none
+  tag d t := cancelTag d t
+  step d t := if d.walker == some t then { d with s := CancelAllLock.apply d.s .wstep }
+              else { d with s := CancelAllLock.apply d.s (.multi (.step t)) }
+  result d t :=
+    if d.walker == some t then (if d.s.w == .done then some "unit" else none) else
+    match d.s.m.thr t with
+    | .done (.item none) => match d.flagSeen.find? (·.1 == t) with
+        | some (_, false) => some "end"
+        | _ => some "pending"
+    | .done r => some r.show
+    | _ => none
+  ack d t := if d.walker == some t then d else { d with s := CancelAllLock.apply d.s (.multi (.ack t)) }
+  observe d k := match k with
+    | "cancelled" => some (showList d.s.cancelled)
+    | "used" => some (showList (d.s.m.used.filter (· != d.s.m.MAX)))
+    | _ => none
+  describe d t := (if d.walker == some t then reprStr d.s.w else reprStr (d.s.m.thr t)) ++ s!" used={d.s.m.used} vacant={d.s.m.vacant} slock={d.s.m.slock} cancelled={d.s.cancelled}"
+  cmpVal tag := tag != "sync.spin" && tag != "sm.sync.lock" && tag != "sm.sync.peek" && tag != "sm.create.count" && tag != "sm.create.vacant" && tag != "sm.running" &&
+                tag != "sm.cancelall.lock" && tag != "sm.cancelall.read" && tag != "sm.cancelall.unlock"
+  -- the poll / park / wake protocol (model M8) is below this model: its yield points are absorbed; `sm.flag` records what the flag read
+  foreign d t tag v :=
+    if tag == "sm.flag" then
+      some { d with flagSeen := (t, d.s.m.keep v) :: d.flagSeen.filter (·.1 != t) }
+    else
+    let reread : CancelD := { d with s := { d.s with m := Multi.setThr d.s.m t (rereadArc d.s.m t) } }
+    if wakeProtocolTag tag then some reread
+    else if tag == "sync.spin" then
+      -- a spin on `wakers_lock` (inside the wake protocol): the model's thread is not at a lock of its own
+      match cancelTag d t with
+      | some ("sync.spin", _) => none
+      | some ("sm.sync.lock", _) => none
+      | some ("sm.cancelall.lock", _) => none
+      | _ => some reread
+    else none
+
 def lookup (kv : List (String × String)) (k : String) : Option String :=
   (kv.find? (·.1 == k)).map (·.2)
 
@@ -543,6 +633,17 @@ def mkMachine (kv : List (String × String)) : Option AnyMachine :=
       let mx := ((lookup kv "MAX").getD "1").toNat!
       let fl := if lookup kv "flavor" == some "ogre" then Mutiny.Multi.Flavor.ogreArc else .arc
       some { σ := _, m := multiMachine, s := Mutiny.Multi.init mx 8 fl ((lookup kv "drains") == some "1") }
+  | some "cancelall" =>
+      let mx := ((lookup kv "MAX").getD "4").toNat!
+      let k := ((lookup kv "k").getD "0").toNat!
+      let fl := if lookup kv "flavor" == some "ogre" then Mutiny.Multi.Flavor.ogreArc else .arc
+      -- `k` listeners created one after the other before the run starts
+      let createOne (m : Mutiny.Multi.St) : Mutiny.Multi.St :=
+        let m1 := Mutiny.Multi.apply m (.create 0)
+        let m2 := (List.range (mx + 6)).foldl (fun x _ => Mutiny.Multi.step x 0) m1
+        Mutiny.Multi.apply m2 (.ack 0)
+      let m0 := (List.range k).foldl (fun x _ => createOne x) (Mutiny.Multi.init mx 8 fl ((lookup kv "drains").getD "1" == "1"))
+      some { σ := _, m := cancelAllMachine, s := { s := Mutiny.CancelAllLock.mk m0, walker := none, pollId := [], flagSeen := [] } }
   | some "wake" =>
       let mx := ((lookup kv "MAX").getD "1").toNat!
       let k := ((lookup kv "k").getD "1").toNat!
